@@ -309,7 +309,7 @@ func (e *Engine) havocLoop(st *State, fr *frame, li *loopInfo) {
 		if !ok {
 			panic(unsupported("loop effect analysis: store through " + addr.String()))
 		}
-		if a, isA := root.(*ssa.Alloc); isA && !a.Heap {
+		if a, isA := root.(*ssa.Alloc); isA && !a.Heap && !isArrayAlloc(a) {
 			return // local cell, handled below
 		}
 		// compute key from static types
@@ -342,6 +342,19 @@ func (e *Engine) havocLoop(st *State, fr *frame, li *loopInfo) {
 			}
 		}
 		kss := e.leafKeys(key, t, dims)
+		// stores into an object allocated inside the loop touch only fresh refs
+		switch r := root.(type) {
+		case *ssa.Alloc:
+			if li.body[r.Block()] {
+				allocKeys = append(allocKeys, kss...)
+				return
+			}
+		case *ssa.MakeSlice:
+			if li.body[r.Block()] {
+				allocKeys = append(allocKeys, kss...)
+				return
+			}
+		}
 		if rv, ok := invariantVal(root); ok {
 			var ref Term
 			switch x := rv.(type) {
@@ -506,11 +519,50 @@ type chainStep struct {
 	index bool
 }
 
+// selfAppendCell recognises x = append(x, ...) where x is a local cell that is
+// assigned in the loop only from such appends.
+func selfAppendCell(li *loopInfo, cc *ssa.CallCommon) *ssa.Alloc {
+	ld, ok := cc.Args[0].(*ssa.UnOp)
+	if !ok || ld.Op != token.MUL {
+		return nil
+	}
+	a, ok := ld.X.(*ssa.Alloc)
+	if !ok || a.Heap || isArrayAlloc(a) {
+		return nil
+	}
+	for b := range li.body {
+		for _, ins := range b.Instrs {
+			s, ok := ins.(*ssa.Store)
+			if !ok || s.Addr != ssa.Value(a) {
+				continue
+			}
+			call, ok := s.Val.(*ssa.Call)
+			if !ok {
+				return nil
+			}
+			bi, ok := call.Call.Value.(*ssa.Builtin)
+			if !ok || bi.Name() != "append" {
+				return nil
+			}
+			l2, ok := call.Call.Args[0].(*ssa.UnOp)
+			if !ok || l2.X != ssa.Value(a) {
+				return nil
+			}
+		}
+	}
+	return a
+}
+
+func isArrayAlloc(a *ssa.Alloc) bool {
+	_, ok := a.Type().(*types.Pointer).Elem().Underlying().(*types.Array)
+	return ok
+}
+
 func rootAlloc(addr ssa.Value) *ssa.Alloc {
 	for {
 		switch x := addr.(type) {
 		case *ssa.Alloc:
-			if !x.Heap {
+			if !x.Heap && !isArrayAlloc(x) {
 				return x
 			}
 			return nil
@@ -570,7 +622,27 @@ func (e *Engine) loopCallEffects(st *State, fr *frame, li *loopInfo, cc *ssa.Cal
 	switch f := cc.Value.(type) {
 	case *ssa.Builtin:
 		switch f.Name() {
-		case "append", "copy":
+		case "append":
+			sl := cc.Args[0].Type().Underlying().(*types.Slice)
+			kss := e.leafKeys(typeKey(arrRootT(sl.Elem()))+"[]", sl.Elem(), 1)
+			// self-append to a local slice variable: x = append(x, ...). The
+			// arrays written are the variable's backing array at loop entry or
+			// arrays allocated inside the loop.
+			if a := selfAppendCell(li, cc); a != nil {
+				if pv, ok := st.env[a]; ok {
+					if p := pv.(PtrV); p.Cell > 0 {
+						if sv, ok := st.cells[p.Cell].(SliceV); ok {
+							for _, ks := range kss {
+								slot(ks, sv.Arr)
+							}
+							*allocKeys = append(*allocKeys, kss...)
+							return
+						}
+					}
+				}
+			}
+			*whole = append(*whole, kss...)
+		case "copy":
 			sl := cc.Args[0].Type().Underlying().(*types.Slice)
 			*whole = append(*whole, e.leafKeys(typeKey(arrRootT(sl.Elem()))+"[]", sl.Elem(), 1)...)
 		case "delete":
@@ -659,7 +731,7 @@ func (e *Engine) loopCallEffects(st *State, fr *frame, li *loopInfo, cc *ssa.Cal
 				if !ok {
 					continue
 				}
-				if a, isA := root.(*ssa.Alloc); isA && !a.Heap {
+				if a, isA := root.(*ssa.Alloc); isA && !a.Heap && !isArrayAlloc(a) {
 					continue
 				}
 				var rootName string
@@ -703,8 +775,11 @@ func (e *Engine) loopCallEffects(st *State, fr *frame, li *loopInfo, cc *ssa.Cal
 func (e *Engine) allocEffects(ins ssa.Instruction) []KeySort {
 	switch x := ins.(type) {
 	case *ssa.Alloc:
+		et := x.Type().(*types.Pointer).Elem()
+		if at, ok := et.Underlying().(*types.Array); ok {
+			return e.leafKeys(e.rootKey(et)+"[]", at.Elem(), 1)
+		}
 		if x.Heap {
-			et := x.Type().(*types.Pointer).Elem()
 			return e.leafKeys(e.rootKey(et), et, 0)
 		}
 	case *ssa.MakeSlice:
@@ -852,7 +927,13 @@ func (e *Engine) cover(st *State, clause string, pos token.Pos) {
 			ob.Props = e.cur.c.Props
 		}
 	}
-	ob.Query = e.buildQuery(st.pc, TTrue)
+	var qf []Term
+	for _, p := range st.pc {
+		if !strings.Contains(p.S, "(forall ") && !strings.Contains(p.S, "(exists ") {
+			qf = append(qf, p)
+		}
+	}
+	ob.Query = e.buildQuery(qf, TTrue)
 	e.covers = append(e.covers, ob)
 }
 
@@ -1066,7 +1147,10 @@ func (e *Engine) checkFrame(st *State, vc *verifyCtx) {
 			continue
 		}
 		r := T("r!q", SInt)
-		conds := []Term{Lt(r, base), Le(IntLit(0), r)}
+		conds := []Term{Lt(r, base), Lt(IntLit(0), r)}
+		if strings.HasPrefix(k, "glob:") {
+			conds = []Term{Eq(r, IntLit(0))}
+		}
 		for _, a := range allow[k] {
 			conds = append(conds, Neq(r, a))
 		}
